@@ -92,6 +92,36 @@ Proof. now exists [e]. Qed.
 Lemma cov_ext old new n : ext old new -> cov old n = true -> cov new n = true.
 Proof. intros [l ->]. apply covl_incl, auths_app. Qed.
 
+(* allowing reviews with their verb and resource (for the write clause) *)
+Fixpoint wauths (evs : list event) : list (string * string * string) :=
+  match evs with
+  | [] => []
+  | EAuth _ v r n true :: rest => (v, r, n) :: wauths rest
+  | _ :: rest => wauths rest
+  end.
+
+Definition wcov (evs : list event) (v r n : string) : bool := wcovl (wauths evs) v r n.
+
+Lemma wcovl_incl A B v r n : incl A B -> wcovl A v r n = true -> wcovl B v r n = true.
+Proof. unfold wcovl. rewrite !existsb_exists. intros H (a & I & C). exists a. auto. Qed.
+
+Lemma wauths_app l evs : incl (wauths evs) (wauths (l ++ evs)).
+Proof.
+  induction l as [|e l IH]; simpl; [apply incl_refl|].
+  destruct e as [u v r n [|]|o k n]; [apply incl_tl; exact IH|exact IH|exact IH].
+Qed.
+
+Lemma wcov_ext old new v r n : ext old new -> wcov old v r n = true -> wcov new v r n = true.
+Proof. intros [l ->]. apply wcovl_incl, wauths_app. Qed.
+
+Lemma wcov_cov evs v r n : wcov evs v r n = true -> cov evs n = true.
+Proof.
+  unfold wcov, cov. induction evs as [|e evs IH]; simpl; [discriminate|].
+  destruct e as [u v' r' a [|]|o k a]; simpl; auto.
+  rewrite !orb_true_iff. intros [H|H]; [left|right; auto].
+  apply andb_true_iff in H. tauto.
+Qed.
+
 (* ------------------------------------------------------------------ small facts on stores *)
 
 Lemma nassoc_nset_same {A} k (x : A) l : nassoc k (nset k x l) = Some x.
@@ -162,7 +192,9 @@ Fixpoint okr (evs : list event) : Prop :=
   match evs with
   | [] => True
   | EAuth u v r n b :: rest => u = eff_user rq /\ hdr = true /\ b = true /\ okr rest
-  | EAcc o k n :: rest => (namespaced k = true -> cov rest n = true) /\ okr rest
+  | EAcc o k n :: rest =>
+      (namespaced k = true -> cov rest n = true) /\
+      (namespaced k = true -> is_read o = false -> wcov rest (verb_of o) (plural_of k) n = true) /\ okr rest
   end.
 
 Record base (s : st) : Prop := {
@@ -171,14 +203,28 @@ Record base (s : st) : Prop := {
   b_last : store_ok (s_evs s) (s_last s);
   b_body : forall x, In x (s_body s) -> cov (s_evs s) x = true }.
 
-Definition authd (A : list nsexpr) (s : st) : Prop :=
-  forall e, In e A -> cov (s_evs s) (eval rq (s_env s) e) = true.
+Definition ent_ok (evs : list event) (env : list (nat * string)) (a : aent) : Prop :=
+  match fst a with
+  | None => cov evs (eval rq env (snd a)) = true
+  | Some (v, r) => wcov evs v r (eval rq env (snd a)) = true
+  end.
+
+Definition authd (A : list aent) (s : st) : Prop :=
+  forall a, In a A -> ent_ok (s_evs s) (s_env s) a.
+
+Lemma ent_ok_ext old new env a : ext old new -> ent_ok old env a -> ent_ok new env a.
+Proof.
+  unfold ent_ok. intros X. destruct (fst a) as [[v r]|]; [now apply wcov_ext|now apply cov_ext].
+Qed.
+
+Lemma ent_ok_cov evs env a : ent_ok evs env a -> cov evs (eval rq env (snd a)) = true.
+Proof. unfold ent_ok. destruct (fst a) as [[v r]|]; [apply wcov_cov|auto]. Qed.
 
 Definition stop_ok (c : nat) (s : st) : Prop :=
   okr (s_evs s) \/
   exists v r n evs', s_evs s = EAuth (eff_user rq) v r n false :: evs' /\ okr evs' /\ hdr = true /\ (c = 401 \/ c = 403).
 
-Definition post (A' : list nsexpr) (s : st) (r : res) : Prop :=
+Definition post (A' : list aent) (s : st) (r : res) : Prop :=
   match r with
   | Go s' => base s' /\ authd A' s' /\ s_env s' = s_env s /\ ext (s_evs s) (s_evs s')
   | Stop c s' => stop_ok c s'
@@ -190,7 +236,7 @@ Definition sound_l (l : list instr) : Prop :=
   forall A A' s, chks A l = Some A' -> base s -> authd A s -> post A' s (execs rq rb l s).
 
 Lemma authd_frame A s s' : authd A s -> s_env s' = s_env s -> ext (s_evs s) (s_evs s') -> authd A s'.
-Proof. intros H E X e I. rewrite E. eapply cov_ext; eauto. Qed.
+Proof. intros H E X e I. rewrite E. eapply ent_ok_ext; eauto. Qed.
 
 Lemma authd_incl A B s : incl B A -> authd A s -> authd B s.
 Proof. intros H K e I. apply K, H, I. Qed.
@@ -198,9 +244,9 @@ Proof. intros H K e I. apply K, H, I. Qed.
 Lemma drop_var_incl v A : incl (drop_var v A) A.
 Proof. intros e I. apply filter_In in I. tauto. Qed.
 
-Lemma eval_drop_var v x env A e : In e (drop_var v A) -> eval rq (nset v x env) e = eval rq env e.
+Lemma eval_drop_var v x env A a : In a (drop_var v A) -> eval rq (nset v x env) (snd a) = eval rq env (snd a).
 Proof.
-  intro I. apply filter_In in I. destruct I as [_ H]. destruct e; try reflexivity.
+  intro I. apply filter_In in I. destruct I as [_ H]. destruct (snd a) as [| | |w|]; try reflexivity.
   apply negb_true_iff, Nat.eqb_neq in H. cbn [eval]. rewrite nassoc_nset_other; [reflexivity|congruence].
 Qed.
 
@@ -210,8 +256,20 @@ Proof.
     try (apply String.eqb_eq in H; congruence); apply Nat.eqb_eq in H; congruence.
 Qed.
 
-Lemma amem_in e A : amem e A = true -> In e A.
-Proof. unfold amem. rewrite existsb_exists. intros (x & I & E). apply nsexpr_eqb_eq in E. now subst. Qed.
+Lemma ent_ok_drop_var v x env evs A a : In a (drop_var v A) -> ent_ok evs env a -> ent_ok evs (nset v x env) a.
+Proof. intros I. unfold ent_ok. now rewrite (eval_drop_var v x env A a I). Qed.
+
+Lemma rmem_in e A : rmem e A = true -> exists m, In (m, e) A.
+Proof.
+  unfold rmem. rewrite existsb_exists. intros ([m x] & I & E). apply nsexpr_eqb_eq in E. simpl in E. subst. eauto.
+Qed.
+
+Lemma wmem_in v r e A : wmem v r e A = true -> In (Some (v, r), e) A.
+Proof.
+  unfold wmem. rewrite existsb_exists. intros ([[[v' r']|] x] & I & E); simpl in E; [|discriminate].
+  apply andb_true_iff in E. destruct E as [E1 E2]. apply andb_true_iff in E1. destruct E1 as [Ev Er].
+  apply String.eqb_eq in Ev, Er. apply nsexpr_eqb_eq in E2. now subst.
+Qed.
 
 (* states differing only in bookkeeping fields *)
 Lemma base_same s s' :
@@ -272,7 +330,7 @@ Proof.
   destruct Hb as (B1 & _ & E1 & X1). split; [|split; [|split]]; auto. eapply authd_frame; eauto.
 Qed.
 
-Definition okb (o : option (list nsexpr)) : bool := match o with Some _ => true | None => false end.
+Definition okb (o : option (list aent)) : bool := match o with Some _ => true | None => false end.
 Lemma okb_some o : okb o = true -> exists A1, o = Some A1.
 Proof. destruct o; [eauto|discriminate]. Qed.
 
@@ -284,7 +342,7 @@ Proof. unfold hdr, eff_user. destruct (String.eqb (r_header rq) ""); [discrimina
 Lemma sound_auth v r e g : sound_i (Auth v r e g).
 Proof.
   intros A A' s C B H.
-  assert (G : g = GStd /\ A' = e :: A).
+  assert (G : g = GStd /\ A' = (Some (v, r), e) :: A).
   { simpl in C. destruct g; try discriminate. destruct e; try discriminate; injection C as <-; auto. }
   destruct G as [-> ->]. clear C. cbn [exec]. unfold do_auth.
   destruct (String.eqb (r_header rq) "") eqn:Eh.
@@ -297,9 +355,9 @@ Proof.
         -- eapply store_ok_ext; [apply ext_cons|apply B].
         -- eapply store_ok_ext; [apply ext_cons|apply B].
         -- intros x I. eapply cov_ext; [apply ext_cons|now apply B].
-      * intros e' [<-|I]; simpl.
-        -- unfold cov. simpl. now rewrite covers_refl.
-        -- eapply cov_ext; [apply ext_cons|now apply H].
+      * intros e' [<-|I].
+        -- unfold ent_ok, wcov, wcovl. simpl. now rewrite !String.eqb_refl, covers_refl.
+        -- eapply ent_ok_ext; [apply ext_cons|now apply H].
       * reflexivity.
       * apply ext_cons.
     + right. simpl. exists v, r, (eval rq (s_env s) e), (s_evs s). rewrite (eff_user_hdr Hh).
@@ -309,14 +367,19 @@ Qed.
 Lemma sound_access o k e d : sound_i (Access o k e d).
 Proof.
   intros A A' s C B H. simpl in C.
-  destruct (negb (namespaced k) || amem e A) eqn:E; [|discriminate]. injection C as <-.
+  destruct (negb (namespaced k) || (if is_read o then rmem e A else wmem (verb_of o) (plural_of k) e A)) eqn:E;
+    [|discriminate]. injection C as <-.
   cbn [exec]. unfold do_access.
   pose proof (pop_api_same s) as P. destruct (pop_api s) as [a s0]. destruct P as (P1 & P2 & P3 & P4 & P5).
   set (n := eval rq (s_env s) e).
   assert (Hc : namespaced k = true -> cov (s_evs s) n = true).
-  { intro Nk. rewrite Nk in E. simpl in E. apply amem_in in E. now apply H. }
+  { intro Nk. rewrite Nk in E. simpl in E. destruct (is_read o).
+    - apply rmem_in in E. destruct E as [m I]. apply (ent_ok_cov _ _ (m, e)). now apply H.
+    - apply wmem_in in E. apply (ent_ok_cov _ _ (Some (verb_of o, plural_of k), e)). now apply H. }
+  assert (Hw : namespaced k = true -> is_read o = false -> wcov (s_evs s) (verb_of o) (plural_of k) n = true).
+  { intros Nk Ro. rewrite Nk, Ro in E. simpl in E. apply wmem_in in E. exact (H _ E). }
   assert (Hok : okr (EAcc o k n :: s_evs s0)).
-  { simpl. rewrite P1. split; [assumption|apply B]. }
+  { simpl. rewrite P1. split; [assumption|split; [assumption|apply B]]. }
   assert (X : ext (s_evs s) (EAcc o k n :: s_evs s0)) by (rewrite P1; apply ext_cons).
   assert (S1 : store_ok (EAcc o k n :: s_evs s0) (s_objs s0)).
   { rewrite P2. eapply store_ok_ext; [exact X|apply B]. }
@@ -325,7 +388,7 @@ Proof.
   assert (S3 : forall x, In x (s_body s0) -> cov (EAcc o k n :: s_evs s0) x = true).
   { rewrite P4. intros x I. eapply cov_ext; [exact X|now apply B]. }
   assert (HA : forall s', s_evs s' = EAcc o k n :: s_evs s0 -> s_env s' = s_env s0 -> authd A s').
-  { intros s' E1 E2 e' I. rewrite E1, E2, P5. eapply cov_ext; [exact X|now apply H]. }
+  { intros s' E1 E2 e' I. rewrite E1, E2, P5. eapply ent_ok_ext; [exact X|now apply H]. }
   assert (Hnil : store_ok (EAcc o k n :: s_evs s0) (nset d [] (s_last s0))).
   { apply store_ok_nset; [exact S2|intros ? []]. }
   destruct a as [objs| |]; lazy iota beta zeta.
@@ -402,7 +465,7 @@ Qed.
 (* running a checked body from a state reached later, with another environment that agrees on A0 *)
 Lemma body_iter A0 A1 b s' env' :
   sound_l b -> chks A0 b = Some A1 -> base s' ->
-  (forall e, In e A0 -> cov (s_evs s') (eval rq env' e) = true) ->
+  (forall a, In a A0 -> ent_ok (s_evs s') env' a) ->
   iter_post s' (execs rq rb b (set_env s' env')).
 Proof.
   intros Hb C B H.
@@ -496,7 +559,7 @@ Proof.
   destruct (iter_list f l s) as [s1|c s1]; simpl in P; [|exact P].
   destruct P as [B1 X1]. apply post_go_intro; auto.
   - apply (base_same s1); auto.
-  - intros e I. simpl. eapply cov_ext; [exact X1|]. apply H. now apply drop_var_incl in I.
+  - intros e I. simpl. eapply ent_ok_ext; [exact X1|]. apply H. now apply drop_var_incl in I.
 Qed.
 
 Lemma sound_ForEachName v src b : sound_l b -> sound_i (ForEachName v src b).
@@ -510,16 +573,16 @@ Proof.
      | Go s' => Go (set_env s' (s_env s)) | Stop c s' => Stop c s' end).
   apply foreach_post; auto.
   intros x s' _ B' X'. eapply body_iter; eauto.
-  intros e I. rewrite (eval_drop_var v x (s_env s) A e I).
-  eapply cov_ext; [exact X'|]. apply H. now apply drop_var_incl in I.
+  intros e I. apply (ent_ok_drop_var v x _ _ A e I).
+  eapply ent_ok_ext; [exact X'|]. apply H. now apply drop_var_incl in I.
 Qed.
 
 Lemma sound_ForEachObj v src b : sound_l b -> sound_i (ForEachObj v src b).
 Proof.
   intros Hb A A' s C B H.
   change (chk A (ForEachObj v src b)) with
-    (if okb (chks (NsVar v :: drop_var v A) b) then Some (drop_var v A) else None) in C.
-  destruct (okb (chks (NsVar v :: drop_var v A) b)) eqn:E; [|discriminate]. injection C as <-.
+    (if okb (chks ((None, NsVar v) :: drop_var v A) b) then Some (drop_var v A) else None) in C.
+  destruct (okb (chks ((None, NsVar v) :: drop_var v A) b)) eqn:E; [|discriminate]. injection C as <-.
   apply okb_some in E. destruct E as [A1 E].
   change (exec rq rb (ForEachObj v src b) s) with
     (match iter_list (fun x s' => execs rq rb b (set_env s' (nset v x (s_env s)))) (nget src (s_last s)) s with
@@ -528,10 +591,10 @@ Proof.
   intros x s' Ix B' X'. eapply body_iter; eauto.
   intros e [<-|I].
   - (* the object comes from the latest result of a checked (hence authorised) read *)
-    cbn [eval]. rewrite nassoc_nset_same. eapply cov_ext; [exact X'|].
+    unfold ent_ok. cbn [fst snd eval]. rewrite nassoc_nset_same. eapply cov_ext; [exact X'|].
     apply (nget_ok _ (s_last s) src); [apply B|exact Ix].
-  - rewrite (eval_drop_var v x (s_env s) A e I).
-    eapply cov_ext; [exact X'|]. apply H. now apply drop_var_incl in I.
+  - apply (ent_ok_drop_var v x _ _ A e I).
+    eapply ent_ok_ext; [exact X'|]. apply H. now apply drop_var_incl in I.
 Qed.
 
 Theorem exec_sound : forall i, sound_i i.
@@ -554,9 +617,22 @@ Proof.
   simpl rev. rewrite <- app_assoc. simpl app.
   destruct e as [u v r n b|o k n]; simpl in O.
   - destruct O as (-> & Hh & -> & O). rewrite (IH O). simpl. rewrite String.eqb_refl, Hh. reflexivity.
-  - destruct O as (Hc & O). rewrite (IH O). simpl.
+  - destruct O as (Hc & _ & O). rewrite (IH O). simpl.
     destruct (namespaced k) eqn:Nk; simpl; [|reflexivity].
     unfold cov, covl in Hc. now rewrite (Hc eq_refl).
+Qed.
+
+Lemma wscan_rev_ok rq evs : okr rq evs ->
+  forall tail, wscan [] (rev evs ++ tail) = wscan (wauths evs) tail.
+Proof.
+  induction evs as [|e evs IH]; intros O tail; [reflexivity|].
+  simpl rev. rewrite <- app_assoc. simpl app.
+  destruct e as [u v r n b|o k n]; simpl in O.
+  - destruct O as (_ & _ & -> & O). rewrite (IH O). reflexivity.
+  - destruct O as (_ & Hw & O). rewrite (IH O). simpl.
+    destruct (is_read o) eqn:Ro; simpl; [reflexivity|].
+    destruct (namespaced k) eqn:Nk; simpl; [|reflexivity].
+    unfold wcov in Hw. now rewrite (Hw eq_refl eq_refl).
 Qed.
 
 Theorem check_safeb h rq rb apis ch : check h = true -> safeb rq (run h rq rb apis ch) = true.
@@ -569,12 +645,12 @@ Proof.
   unfold run. destruct (execs rq rb h (init apis ch)) as [s|c s]; simpl in P; unfold safeb, trace_of; cbn [t_evs t_status t_body].
   - destruct P as (B & _ & _ & _).
     change (negb (String.eqb (r_header rq) "")) with (hdr rq).
-    rewrite <- (app_nil_r (rev (s_evs s))), (scan_rev_ok rq 200 _ (b_ok _ _ B)). simpl.
+    rewrite <- (app_nil_r (rev (s_evs s))), (wscan_rev_ok rq _ (b_ok _ _ B)), (scan_rev_ok rq 200 _ (b_ok _ _ B)). simpl.
     apply forallb_forall. intros x I. apply (b_body _ _ B x I).
   - change (negb (String.eqb (r_header rq) "")) with (hdr rq).
     destruct P as [O|(v & r & n & evs' & Es & O & Hh & Hc)].
-    + rewrite <- (app_nil_r (rev (s_evs s))), (scan_rev_ok rq c _ O). simpl. now rewrite orb_true_r.
-    + rewrite Es. simpl rev. rewrite (scan_rev_ok rq c _ O). simpl.
+    + rewrite <- (app_nil_r (rev (s_evs s))), (wscan_rev_ok rq _ O), (scan_rev_ok rq c _ O). simpl. now rewrite orb_true_r.
+    + rewrite Es. simpl rev. rewrite (wscan_rev_ok rq _ O), (scan_rev_ok rq c _ O). simpl.
       rewrite String.eqb_refl, Hh. simpl.
       destruct Hc as [-> | ->]; simpl; reflexivity.
 Qed.
@@ -638,9 +714,37 @@ Proof.
       * intros u v r m b [I|I]; [discriminate|]. eapply I4; eauto.
 Qed.
 
+Lemma wscan_spec l : forall W pre,
+  wscan W l = true ->
+  (forall v r a, In (v, r, a) W -> exists u, In (EAuth u v r a true) pre) ->
+  forall p o k n q, l = p ++ EAcc o k n :: q -> namespaced k = true -> is_read o = false ->
+  exists u a, In (EAuth u (verb_of o) (plural_of k) a true) (pre ++ p) /\ covers a n = true.
+Proof.
+  induction l as [|e l IH]; intros W pre S HW p o k n q E Nk Ro; [destruct p; discriminate|].
+  destruct p as [|e' p].
+  - injection E as -> ->. simpl in S. rewrite Ro, Nk in S. simpl in S.
+    apply andb_true_iff in S. destruct S as [S _]. unfold wcovl in S. rewrite existsb_exists in S.
+    destruct S as ([[v r] a] & I & C). apply andb_true_iff in C. destruct C as [C Cc].
+    apply andb_true_iff in C. destruct C as [Cv Cr]. apply String.eqb_eq in Cv, Cr. subst v r.
+    destruct (HW _ _ _ I) as [u J]. exists u, a. rewrite app_nil_r. auto.
+  - injection E as <- E.
+    assert (K : exists W', wscan W' l = true /\
+                (forall v r a, In (v, r, a) W' -> exists u, In (EAuth u v r a true) (pre ++ [e]))).
+    { destruct e as [u v r a [|]|o' k' n']; simpl in S.
+      - exists ((v, r, a) :: W). split; [exact S|]. intros v0 r0 a0 [[= <- <- <-]|I].
+        + exists u. apply in_or_app. right. now left.
+        + destruct (HW _ _ _ I) as [u0 J]. exists u0. apply in_or_app. now left.
+      - exists W. split; [exact S|]. intros v0 r0 a0 I. destruct (HW _ _ _ I) as [u0 J]. exists u0. apply in_or_app. now left.
+      - apply andb_true_iff in S. exists W. split; [apply S|].
+        intros v0 r0 a0 I. destruct (HW _ _ _ I) as [u0 J]. exists u0. apply in_or_app. now left. }
+    destruct K as (W' & S' & HW').
+    destruct (IH W' (pre ++ [e]) S' HW' p o k n q E Nk Ro) as (u & a & J & C).
+    exists u, a. rewrite <- app_assoc in J. auto.
+Qed.
+
 Theorem safeb_safe rq t : safeb rq t = true -> safe rq t.
 Proof.
-  unfold safeb. intro S.
+  unfold safeb. intro S. apply andb_true_iff in S. destruct S as [SW S].
   destruct (scan (eff_user rq) (negb (String.eqb (r_header rq) "")) (t_status t) [] (t_evs t)) as [A'|] eqn:E; [|discriminate].
   destruct (scan_spec _ _ _ _ [] A' [] E) as (I1 & I2 & I3 & I4); [intros ? []|].
   simpl in *. repeat split.
@@ -651,6 +755,8 @@ Proof.
   - eapply I3; eauto.
   - eapply I4; eauto.
   - destruct (I4 _ _ _ _ _ H) as [_ Hh]. apply negb_true_iff in Hh. intro K. rewrite K in Hh. discriminate.
+  - intros pre o k n post Et Nk Ro.
+    apply (wscan_spec (t_evs t) [] [] SW (fun _ _ _ F => match F with end) pre o k n post Et Nk Ro).
 Qed.
 
 Theorem check_sound h : check h = true -> forall rq rb apis ch, safe rq (run h rq rb apis ch).
@@ -684,7 +790,7 @@ Lemma safe_no_header rq t : safe rq t -> r_header rq = "" ->
 Proof.
   intros S H.
   assert (N : forall u v r n b, ~ In (EAuth u v r n b) (t_evs t)).
-  { intros u v r n b I. destruct S as (_ & _ & _ & S4). destruct (S4 u v r n b I) as [_ K]. contradiction. }
+  { intros u v r n b I. destruct S as (_ & _ & _ & S4 & _). destruct (S4 u v r n b I) as [_ K]. contradiction. }
   split; [exact N|]. apply (safe_without_allow rq t S). intros u v r a. apply N.
 Qed.
 
@@ -799,4 +905,29 @@ Theorem deny_all h rq rb apis ch : check h = true -> (forall u v r n, rb u v r n
 Proof.
   intros C D t. apply (safe_without_allow rq t); [now apply check_sound|].
   intros u v r a I. apply run_oracle in I. rewrite D in I. discriminate.
+Qed.
+
+(* ------------------------------------------------------------------ the write clause *)
+
+Lemma safe_write rq t : safe rq t ->
+  forall pre o k n post, t_evs t = pre ++ EAcc o k n :: post -> namespaced k = true -> is_read o = false ->
+  exists a, In (EAuth (eff_user rq) (verb_of o) (plural_of k) a true) pre /\ covers a n = true.
+Proof.
+  intros (_ & _ & _ & S4 & S5) pre o k n post E Nk Ro.
+  destruct (S5 pre o k n post E Nk Ro) as (u & a & I & C). exists a. split; [|exact C].
+  assert (J : In (EAuth u (verb_of o) (plural_of k) a true) (t_evs t)) by (rewrite E; apply in_or_app; now left).
+  destruct (S4 _ _ _ _ _ J) as [-> _]. exact I.
+Qed.
+
+(* A user whom the oracle never allows to create, update or delete: a checked handler performs no write. *)
+Theorem read_only_no_write h rq rb apis ch : check h = true ->
+  (forall u v r n, v = "create" \/ v = "update" \/ v = "delete" -> rb u v r n = false) ->
+  forall o k n, In (EAcc o k n) (t_evs (run h rq rb apis ch)) -> namespaced k = true -> is_read o = true.
+Proof.
+  intros C D o k n I Nk. destruct (is_read o) eqn:Ro; [reflexivity|exfalso].
+  apply in_split in I. destruct I as (pre & post & E).
+  destruct (safe_write rq _ (check_sound h C rq rb apis ch) pre o k n post E Nk Ro) as (a & J & _).
+  assert (K : In (EAuth (eff_user rq) (verb_of o) (plural_of k) a true) (t_evs (run h rq rb apis ch))).
+  { rewrite E. apply in_or_app. now left. }
+  apply run_oracle in K. rewrite D in K; [discriminate|]. destruct o; try discriminate Ro; simpl; auto.
 Qed.
